@@ -345,3 +345,178 @@ def rule_constructor_kwargs(ck, repo):
     ck.decide(ok or not lacking, R, 'e(**a)', lacking or 'all classes accept all keys',
               f'smarts(): e(**a) can raise TypeError for {lacking} (e.g. [M;h1]) and the call is not inside a try that re-raises IncorrectSmarts',
               file=f.file, line=call.lineno, func=f.qualname, construct=src(call))
+
+
+# ---- constraint normalisers (the setters behind neighbors / heteroatoms / implicit_hydrogens / hybridization / ring_sizes) ----------------
+class _Unknown(Exception):
+    pass
+
+
+def _ev(e, env):
+    """tiny evaluator for guard expressions over one sample value (finite-domain decision of a predicate, like the regex enumeration)"""
+    if isinstance(e, ast.Constant):
+        return e.value
+    if isinstance(e, ast.Name):
+        if e.id in env:
+            return env[e.id]
+        if e.id in ('int', 'tuple', 'list', 'bool', 'str', 'float'):
+            return {'int': int, 'tuple': tuple, 'list': list, 'bool': bool, 'str': str, 'float': float}[e.id]
+        raise _Unknown(e.id)
+    if isinstance(e, ast.Tuple):
+        return tuple(_ev(x, env) for x in e.elts)
+    if isinstance(e, ast.UnaryOp) and isinstance(e.op, ast.Not):
+        return not _ev(e.operand, env)
+    if isinstance(e, ast.UnaryOp) and isinstance(e.op, ast.USub):
+        return -_ev(e.operand, env)
+    if isinstance(e, ast.BoolOp):
+        vals = [_ev(x, env) for x in e.values]  # guards have no side effects: eager evaluation is equivalent unless an operand is unknown
+        return all(vals) if isinstance(e.op, ast.And) else any(vals)
+    if isinstance(e, ast.Compare):
+        left = _ev(e.left, env)
+        for op, c in zip(e.ops, e.comparators):
+            right = _ev(c, env)
+            try:
+                r = {ast.Lt: lambda a, b: a < b, ast.LtE: lambda a, b: a <= b, ast.Gt: lambda a, b: a > b, ast.GtE: lambda a, b: a >= b,
+                     ast.Eq: lambda a, b: a == b, ast.NotEq: lambda a, b: a != b, ast.Is: lambda a, b: a is b, ast.IsNot: lambda a, b: a is not b,
+                     ast.In: lambda a, b: a in b, ast.NotIn: lambda a, b: a not in b}[type(op)](left, right)
+            except TypeError:
+                raise _Unknown('type error in comparison')
+            if not r:
+                return False
+            left = right
+        return True
+    if isinstance(e, ast.Call) and isinstance(e.func, ast.Name) and e.func.id == 'isinstance' and len(e.args) == 2:
+        return isinstance(_ev(e.args[0], env), _ev(e.args[1], env))
+    if isinstance(e, ast.Call) and isinstance(e.func, ast.Name) and e.func.id == 'len' and len(e.args) == 1:
+        return len(_ev(e.args[0], env))
+    raise _Unknown(ast.dump(e)[:60])
+
+
+NORMALISERS = {
+    # name -> (where, admitted scalar values within the probe range, admitted list members within the probe range)
+    '_validate': ('func', set(range(0, 15)), set(range(0, 15))),
+    'hybridization': ('setter', {1, 2, 3, 4}, {1, 2, 3, 4}),
+    'ring_sizes': ('setter', {0} | set(range(3, 40)), set(range(3, 40))),
+}
+PROBE = range(-3, 40)
+
+
+def rule_constraint_normalisers(ck, repo, R):
+    ck.rule(R, 'the normalisers behind the query constraints store "no constraint" (empty tuple) ONLY for None; every documented scalar '
+               '(incl. 0: "no neighbours / no hydrogens / no heteroatoms / not in a ring") becomes a one-element constraint, lists become sorted '
+               'tuples; the admitted ranges are the documented ones; all three setters of _validate route through it')
+    mod = repo.module(Q)
+    ck.require(mod is not None, 'query module not found')
+    qcls = mod.classes
+    for name, (where, scalars, members) in NORMALISERS.items():
+        if where == 'func':
+            f = mod.functions.get(name)
+            par = 'value'
+        else:
+            f = None
+            for c in qcls.values():
+                g = c.method(name, setter=True)
+                if g is not None:
+                    f = g
+            par = 'value'
+        ck.require(f is not None, f'normaliser {name} not found')
+        par = f.params()[-1] if where == 'setter' else f.params()[0]
+        body = strip_doc(f.node.body)
+        ck.require(len(body) == 1 and isinstance(body[0], ast.If), f'{name}: not a single if-ladder')
+        arms = if_chain(body[0])
+        # arm selection over sample values
+        samples = {'None': None, '0': 0, '1': 1, '3': 3, 'True-ish 14': 14, 'empty tuple': (), 'tuple': (3, 4), 'list': [4, 3]}
+        chosen = {}
+        for label, v in samples.items():
+            for i, (test, blk) in enumerate(arms):
+                if test is None:
+                    chosen[label] = i
+                    break
+                try:
+                    r = _ev(test, {par: v})
+                except _Unknown as e:
+                    raise AnalysisError(f'{name}: guard `{src(test)}` not understood ({e})')
+                if r:
+                    chosen[label] = i
+                    break
+
+        def result_kind(blk):
+            for s in blk:
+                for n in ast.walk(s):
+                    v = None
+                    if isinstance(n, ast.Return):
+                        v = n.value
+                    elif isinstance(n, ast.Assign) and isinstance(n.targets[0], ast.Attribute):
+                        v = n.value
+                    if v is None:
+                        continue
+                    t = src(v)
+                    if t == '()':
+                        return 'empty'
+                    if t == f'({par},)':
+                        return 'single'
+                    if t in (f'tuple(sorted({par}))', f'tuple(sorted(set({par})))'):
+                        return 'sorted'
+                    return 'other:' + t
+            return 'raise' if any(isinstance(n, ast.Raise) for s in blk for n in ast.walk(s)) else 'none'
+
+        kinds = {label: result_kind(arms[i][1]) for label, i in chosen.items()}
+        ck.decide(kinds.get('None') == 'empty', R, f'{name}:None', kinds.get('None'), f'{name}: None is normalised to {kinds.get("None")}, expected the empty tuple',
+                  file=f.file, line=f.lineno, func=f.qualname)
+        for label in ('0', '1', '3', 'True-ish 14'):
+            ck.decide(kinds.get(label) == 'single', R, f'{name}:scalar {label}', kinds.get(label),
+                      f'{name}: the scalar {label} takes the arm `{src(arms[chosen[label]][0]) if arms[chosen[label]][0] is not None else "else"}` and is stored as '
+                      f'"{kinds.get(label)}" instead of a one-element constraint: a query built with {name if where == "setter" else "neighbors/heteroatoms/implicit_hydrogens"}={label} '
+                      f'silently loses the constraint and matches every atom', file=f.file, line=arms[chosen[label]][0].lineno if arms[chosen[label]][0] is not None else f.lineno,
+                      func=f.qualname, construct=src(arms[chosen[label]][0]) if arms[chosen[label]][0] is not None else None)
+        for label in ('tuple', 'list'):
+            ck.decide(kinds.get(label) == 'sorted', R, f'{name}:{label}', kinds.get(label), f'{name}: a {label} is stored as "{kinds.get(label)}" instead of a sorted tuple',
+                      file=f.file, line=f.lineno, func=f.qualname)
+        # admitted scalar range: evaluate the raise-guards of the scalar arm over the probe range
+        i_int = chosen.get('1')
+        if i_int is not None and kinds.get('1') == 'single':
+            guards = [s.test for s in arms[i_int][1] if isinstance(s, ast.If) and any(isinstance(n, ast.Raise) for n in ast.walk(s))]
+            try:
+                admitted = {v for v in PROBE if not any(_ev(g, {par: v}) for g in guards)}
+            except _Unknown as e:
+                raise AnalysisError(f'{name}: range guard not understood ({e})')
+            ck.decide(admitted == {v for v in PROBE if v in scalars}, R, f'{name}:scalar-range', f'{min(admitted)}..{max(admitted)}',
+                      f'{name}: admits scalars {sorted(admitted)[:8]}.. but the documented set is {sorted(scalars)[:8]}..', file=f.file, line=f.lineno, func=f.qualname)
+        i_seq = chosen.get('tuple')
+        if i_seq is not None and kinds.get('tuple') == 'sorted':
+            gens = []
+            uniq = typed = False
+            for s in arms[i_seq][1]:
+                if not (isinstance(s, ast.If) and any(isinstance(n, ast.Raise) for n in ast.walk(s))):
+                    continue
+                t = s.test
+                txt = src(t)
+                if 'len(set(' in txt:
+                    uniq = True
+                for n in ast.walk(t):
+                    if isinstance(n, ast.GeneratorExp) and len(n.generators) == 1 and isinstance(n.generators[0].target, ast.Name):
+                        var = n.generators[0].target.id
+                        if 'isinstance' in src(n.elt):
+                            typed = True
+                        else:
+                            gens.append((var, n.elt))
+            try:
+                adm = {v for v in PROBE if not any(_ev(e, {var: v}) for var, e in gens)}
+            except _Unknown as e:
+                raise AnalysisError(f'{name}: member range guard not understood ({e})')
+            ck.decide(adm == {v for v in PROBE if v in members} and uniq and typed, R, f'{name}:member-range', None,
+                      f'{name}: list members admitted {sorted(adm)[:8]}.., unique-check={uniq}, int-check={typed}; documented set {sorted(members)[:8]}..',
+                      file=f.file, line=f.lineno, func=f.qualname)
+    # routing: the three counted constraints go through _validate
+    routed = 0
+    for c in qcls.values():
+        for attr in ('neighbors', 'heteroatoms', 'implicit_hydrogens'):
+            g = c.method(attr, setter=True)
+            if g is None:
+                continue
+            routed += 1
+            calls = [n for n in ast.walk(g.node) if isinstance(n, ast.Call) and isinstance(n.func, ast.Name) and n.func.id == '_validate']
+            tgt = [n for n in ast.walk(g.node) if isinstance(n, ast.Assign) and src(n.targets[0]) == f'self._{attr}']
+            ck.decide(len(calls) == 1 and len(tgt) == 1 and tgt[0].value is calls[0] and src(calls[0].args[0]) == g.params()[-1], R, f'{c.name}.{attr}:routed', None,
+                      f'{c.name}.{attr} setter no longer stores _validate(value)', file=g.file, line=g.lineno, func=g.qualname)
+    ck.floor(R, 20)
